@@ -446,7 +446,10 @@ func c47Exec(cfg c47Cfg) func(hist []c47Op) vsched.StepResult {
 			viol = append(viol, v...)
 		}
 		canon := c47Canon(b, clk.now) + m.canon(clk.now)
-		return vsched.StepResult{Canon: canon, Obs: obs + " " + canon, Violations: viol}
+		// observation = result of the last operation + state + window content as the oracle sees it
+		// (coarser than the canonical state so that the distinct-observation sets stay small)
+		ms, mf, os, of := m.counts(clk.now)
+		return vsched.StepResult{Canon: canon, Obs: fmt.Sprintf("%s | %s sem%d win %d/%d+%d/%d", obs, b.State(), len(b.semCh), ms, mf, os, of), Violations: viol}
 	}
 }
 
@@ -626,7 +629,7 @@ func TestVerifC47(t *testing.T) {
 	if r.Thorough() {
 		cfgs = append(cfgs, c47Cfg{name: "t100-min2-3x1s-open1500ms-hom2", num: 1, den: 1, minReq: 2, buckets: 3, bucketDur: time.Second, openTimeout: 1500 * time.Millisecond, hom: 2})
 	}
-	depth := vsched.Pick(9, 11)
+	depth := vsched.Pick(9, 12)
 	for _, cfg := range cfgs {
 		cfg := cfg
 		alpha := c47Alphabet(cfg)
